@@ -2,7 +2,10 @@ pub mod c02;
 pub mod c03;
 pub mod c04;
 pub mod c05;
+pub mod c06;
 pub mod c07;
+pub mod c08;
+pub mod c09;
 
 use crate::run::{Runner, Verdict};
 
@@ -25,7 +28,10 @@ pub fn registry(id: &str) -> Option<Entry> {
         "C03" => Entry { run: c03::run, replay: c03::replay, rule: "state = ordered operand pair (unit alphabets scaled to every (e0, e0+delta)) or an item sequence for sum; transition = one +,-,+=,-= or sum call on the real crate; judged by exact comparison |r-(a±b)| * 2^159 <= (k*2^53+c)|a±b|", assumptions: BASE_ASSUME },
         "C04" => Entry { run: c04::run, replay: c04::replay, rule: "state = ordered operand pair; transition = one *, *= call in each operand typing; judged by exact comparison |r-ab| 2^106 <= k|ab| and the exactness clauses (zero, +-1, 2^j)", assumptions: BASE_ASSUME },
         "C05" => Entry { run: c05::run, replay: c05::replay, rule: "state = ordered operand pair; transition = one /, /= or recip call; judged by the multiplied-out exact comparison |r*b-a| <= eps|a| and the exactness clauses (x/x, +-1, 2^j, zero numerator)", assumptions: BASE_ASSUME },
+        "C06" => Entry { run: c06::run, replay: c06::replay, rule: "state = ordered pair from (valid alphabet with lo-neighbours) U (reachable invalid representatives), or (valid, f64), or one valid value; transition = the full set of comparison / min / max / copysign / sign observations on it; judged against exact comparison of hi+lo", assumptions: BASE_ASSUME },
         "C07" => Entry { run: c07::run, replay: c07::replay, rule: "every (a,b) pair of the stated alphabets is one state; each is judged through no_overlap, is_valid, both TryFrom impls and both round trips against RN(a+b)==a; a pair is distinct by its 128 bits", assumptions: BASE_ASSUME },
+        "C08" => Entry { run: c08::run, replay: c08::replay, rule: "state = one valid operand; transition = floor/ceil/trunc/round/fract (inherent and num_traits::Float); judged against exact integer arithmetic on hi+lo", assumptions: BASE_ASSUME },
+        "C09" => Entry { run: c09::run, replay: c09::replay, rule: "state = one integer value of one of the ten types, one TwoFloat, or one f32; transition = every conversion route (From / TryFrom by value and by reference / ToPrimitive / NumCast / FromPrimitive); judged against exact integer arithmetic", assumptions: BASE_ASSUME },
         _ => return None,
     })
 }
